@@ -36,6 +36,7 @@ Comp(op, a, b, inc) == [k |-> "compound", op |-> op, a |-> a, b |-> b, inc |-> i
 RegsC06 == Simple("absent") \cup Simple("F")
            \cup {Comp(op, Circle("absent"), Ell("ellipse", <<3, 4, 5>>, "absent"), inc) : op \in {"and", "or", "xor"}, inc \in {"absent", "F"}}
            \cup {Comp("or", Comp("and", Circle("absent"), CAnn("absent"), "absent"), Ell("rectangle", <<0, 1, 1>>, "absent"), "F")}
+           \cup {Comp(op, Circle("F"), Ell("ellipse", <<3, 4, 5>>, "absent"), "absent") : op \in {"and", "or", "xor"}}     \* excluded operand, compound with its own (empty) meta
 RegsC07 == {Circle("absent"), CAnn("absent")} \cup {Ell(k, d, "absent") : k \in {"ellipse", "rectangle"}, d \in DirsAll}
            \cup {EAnn(k, d, "absent") : k \in {"eannulus", "rannulus"}, d \in Dirs5}
 
